@@ -2,7 +2,7 @@
    The extracted OCaml driver and the in-Coq replays both call only this. *)
 From Coq Require Import List ZArith NArith Bool.
 From AG Require Import Base.Val Base.Sort Str.MetaVar Str.AnB Str.Substring
-  Rewrite.Indent Rewrite.Template Tree.Tree Match.MatchNode.
+  Rewrite.Indent Rewrite.Template Tree.Tree Match.MatchNode Rule.Rule Rule.Eval Rule.Sem.
 Import ListNotations.
 Local Open Scope Z_scope.
 
@@ -37,6 +37,49 @@ Definition case_match_len (v : val) : val :=
   | LenFuel => FUEL_ERR
   end.
 
+(* 20: (src tree rule-object utils constraints (node ids to try)) ->
+       per node: (0 found-id env) | (1) no match *)
+Definition v_loc_id (c : ctx) (l : loc) : val := vN (loc_id c l).
+
+Definition case_rule_match (v : val) : val :=
+  let d := vdepth v in
+  let root := g_tree d (gNth 1 v) in
+  let c := {| c_src := gS (gNth 0 v); c_root := root;
+              c_utils := gList (fun p => (gS (gNth 0 p), g_rule d (gNth 1 p))) (gNth 3 v) |} in
+  let r := g_rule d (gNth 2 v) in
+  let cons := gList (fun p => (gS (gNth 0 p), g_rule d (gNth 1 p))) (gNth 4 v) in
+  let want := gList gN (gNth 5 v) in
+  let locs := id_locs root in
+  VL (map (fun nid =>
+        match find (fun p => N.eqb (fst p) nid) locs with
+        | None => vErr []
+        | Some (_, l) =>
+            match core_match c r cons l with
+            | CMatch m e => VL [VZ 0; v_loc_id c m; v_env e]
+            | CNoMatch => VL [VZ 1]
+            | CFuel => FUEL_ERR
+            end
+        end) want).
+
+(* 100 (oracle): same input as 20 -> per node 1/0 by the reference semantics [sem] *)
+Definition case_rule_sem (v : val) : val :=
+  let d := vdepth v in
+  let root := g_tree d (gNth 1 v) in
+  let c := {| c_src := gS (gNth 0 v); c_root := root;
+              c_utils := gList (fun p => (gS (gNth 0 p), g_rule d (gNth 1 p))) (gNth 3 v) |} in
+  let r := g_rule d (gNth 2 v) in
+  let want := gList gN (gNth 5 v) in
+  let locs := id_locs root in
+  VL (map (fun nid =>
+        match find (fun p => N.eqb (fst p) nid) locs with
+        | None => vErr []
+        | Some (_, l) =>
+            match sem_top c r l with
+            | Some b => vB b
+            | None => FUEL_ERR
+            end
+        end) want).
+
 Definition run_case (fid : Z) (v : val) : val :=
   match fid with
   | 1 => v_metavar (extract_meta_var (gN (gNth 0 v)) (gS (gNth 1 v)))
@@ -57,5 +100,7 @@ Definition run_case (fid : Z) (v : val) : val :=
              end)
   | 10 => case_pattern_match v
   | 11 => case_match_len v
+  | 20 => case_rule_match v
+  | 100 => case_rule_sem v
   | _ => vErr []
   end.
